@@ -8,6 +8,7 @@ import PsVerif.Driver.SyncD
 import PsVerif.Driver.RecordD
 import PsVerif.Driver.WatchD
 import PsVerif.Driver.OpenD
+import PsVerif.Driver.SpendD
 /-
 psdriver: one request per line on stdin, one reply per line on stdout.
 The replies are computed by the SAME definitions the theorems in PsVerif/Props are about.
@@ -32,6 +33,9 @@ def step (st : DState) (ws : List String) : DState × String :=
   | some r => (st, r)
   | none =>
   match handleOpen ws with
+  | some r => (st, r)
+  | none =>
+  match handleSpend ws with
   | some r => (st, r)
   | none =>
   match handleScript ws with
